@@ -84,6 +84,10 @@ func (b *Backends) Shrink() {
 					b.shards[del.shard][del.ID] = del
 				}
 				b.items[name] = del
+				if b.DefaultBackend == add {
+					// the default backend must follow the instance that stays
+					b.DefaultBackend = del
+				}
 				delete(b.itemsAdd, name)
 				delete(b.itemsDel, name)
 				changed = true
